@@ -1,0 +1,17 @@
+//go:build verif
+
+// Contracts checked by /verif/govc (comment-only; compiled only with -tags verif).
+// Soundness mode (see frontend/contracts_verif.go).
+package logderivprecomp
+
+// A query packs (x, y, answers) into one field element x + 2^8*y + 2^16*r0 + ... and later asserts that the
+// packed value is a row of the precomputed table. The packing identifies the row only if every hinted
+// answer r_k is below 2^rets[k]: otherwise r_k can absorb the difference to ANOTHER row (x', y').
+// Query's own comment says "range check the output"; the postcondition states exactly that.
+//@ contract (*Precomputed).pack
+//@   trusted "frame only"
+//@   assigns *t.api
+//@ contract (*Precomputed).Query
+//@   props C13 C14
+//@   requires t != nil && t.api != nil
+//@   ensures @answers-ranged forall k int :: 0 <= k && k < len(t.rets) ==> fits(ival(den(result[k])), t.rets[k])
